@@ -5,4 +5,5 @@ hydro_lang::setup!();
 
 pub mod c35;
 pub mod c39;
+pub mod c41;
 pub mod payload;
